@@ -223,6 +223,7 @@ type gSchema struct {
 	Subscription string
 	Additional   []string
 	Dirs         []*gDir
+	Applied      bool // attach applied directives ([]*Directive) everywhere (not part of the model: introspection does not show them)
 	byName       map[string]*gType
 }
 
@@ -508,7 +509,78 @@ func (s *gSchema) build() *schema.SchemaDefinition {
 			def.Directives[d.Name] = dd
 		}
 	}
+	if s.Applied && len(s.Dirs) > 0 {
+		// one applied directive, pointing at the definition's own DirectiveDefinition object, on every
+		// named type, field, argument, input field and enum value; each application has its own
+		// Directive and Argument objects
+		dd := def.Directives[s.Dirs[0].Name]
+		// Inspect follows the applied directives of scalars and enums into the definition's argument
+		// types: a directive with arguments applied to a type its own arguments use is (rightly)
+		// refused as self-referencing, so such a directive is not applied to scalars and enums
+		leafOK := len(dd.Arguments) == 0
+		mk := func(i int) []*schema.Directive {
+			return []*schema.Directive{{Definition: dd, Arguments: []*schema.Argument{{Name: "n", Value: i}, {Name: "s", Value: "v"}}}}
+		}
+		n := 0
+		next := func() []*schema.Directive { n++; return mk(n) }
+		ivs := func(m map[string]*schema.InputValueDefinition) {
+			for _, k := range sortedIVKeys(m) {
+				m[k].Directives = next()
+			}
+		}
+		fds := func(m map[string]*schema.FieldDefinition) {
+			keys := make([]string, 0, len(m))
+			for k := range m {
+				keys = append(keys, k)
+			}
+			sort.Strings(keys)
+			for _, k := range keys {
+				m[k].Directives = next()
+				ivs(m[k].Arguments)
+			}
+		}
+		for _, t := range s.Types {
+			switch b := t.built.(type) {
+			case *schema.ScalarType:
+				if !t.Builtin && leafOK {
+					b.Directives = next()
+				}
+			case *schema.EnumType:
+				if leafOK {
+					b.Directives = next()
+				}
+				keys := make([]string, 0, len(b.Values))
+				for k := range b.Values {
+					keys = append(keys, k)
+				}
+				sort.Strings(keys)
+				for _, k := range keys {
+					b.Values[k].Directives = next()
+				}
+			case *schema.InputObjectType:
+				b.Directives = next()
+				ivs(b.Fields)
+			case *schema.ObjectType:
+				b.Directives = next()
+				fds(b.Fields)
+			case *schema.InterfaceType:
+				b.Directives = next()
+				fds(b.Fields)
+			case *schema.UnionType:
+				b.Directives = next()
+			}
+		}
+	}
 	return def
+}
+
+func sortedIVKeys(m map[string]*schema.InputValueDefinition) []string {
+	keys := make([]string, 0, len(m))
+	for k := range m {
+		keys = append(keys, k)
+	}
+	sort.Strings(keys)
+	return keys
 }
 
 // ---- generic JSON -> s-expression ----
